@@ -7,6 +7,7 @@
   and that registered work ends as soon as its requests have expired, at which point its callers
   are answered (once) and un-parked in the same tick.
 -/
+import MainlineModel.Gen.FacadeTwins
 import MainlineModel.Lemmas.AssocLemmas
 import MainlineModel.Lemmas.ActorLemmas
 import MainlineModel.Props.C08
@@ -1022,5 +1023,12 @@ theorem reachable_good (cfg : NodeConfig) (seed : UInt64) (t0 : Nat)
     | nil => intro a h; exact h
     | cons s ss ih => intro a h; simp only [List.foldl_cons]; exact ih _ (step_good a h s.1 s.2.1 s.2.2)
   exact this steps _ (create_good cfg seed t0)
+
+
+/-- **T1 obligation — the two facades are twins.**  The correspondence streams drive the async facade
+    (`AsyncDht`); the sync facade (`Dht`) is covered through this obligation: method by method its body
+    equals the async one after normalisation (`.await`, `recv_async`, stream/iterator wrappers), as read
+    from the working tree by `tools/facade_twins.py` on every run. -/
+theorem facade_twins_agree : Mainline.Gen.facadeTwins.all (·.2) = true := by decide
 
 end Mainline.Props.C06
